@@ -62,7 +62,7 @@ func (h listHandlers) Filelist(r *sftp.Request) (sftp.ListerAt, error) {
 
 func runC16(c *Ctx) {
 	c.Rule("request server with scripted listers: every directory size 0..2B+3 for batch sizes B in {1,2,3,7,22} (thorough: also 100), with and without '.'/'..' entries, both EOF styles (with the last entries / on the following call), " +
-		"full and pseudo-randomly shortened batches; os-backed server on real directories of 0..300 entries (crossing 128 and 256); non-trivial = listing that spans at least two batches")
+		"full and pseudo-randomly shortened batches; kind extlisting: entries implementing FileInfoExtendedData with 0, 1 or 2 extended pairs each (names, sizes and pairs must arrive as reported); os-backed server on real directories of 0..300 entries (crossing 128 and 256); non-trivial = listing that spans at least two batches")
 	saved := sftp.MaxFilelist
 	defer func() { sftp.MaxFilelist = saved }()
 	bs := []int{1, 2, 3, 7, 22}
@@ -123,6 +123,7 @@ func runC16(c *Ctx) {
 			}
 		}
 	}
+	c16ExtListings(c)
 	sftp.MaxFilelist = saved
 	// os-backed server on real directories
 	sizes := []int{0, 1, 2, 127, 128, 129, 255, 256, 257, 300}
